@@ -517,7 +517,7 @@ pub mod lexer {
                     '|' => Token::single_char(TokenKind::Or, idx),
                     '(' => Token::single_char(TokenKind::LParen, idx),
                     ')' => Token::single_char(TokenKind::RParen, idx),
-                    ' ' | '\t' | '\n' => continue, // skip whitespace
+                    c if c.is_whitespace() => continue, // skip whitespace
                     _ => self.read_hop_predicate(c, idx),
                 });
             }
